@@ -179,6 +179,23 @@ def templates(rng):
     TR = dataclasses.dataclass(TR)
     HG = _dc(m, "HoldsTree", {"t": TR[str], "c": Optional[CH[int]]}, {"c": None})
     out.append(("holder of generic self-referencing classes", HG, [HG(TR("a", [TR("b")]), CH(1))], {"self-reference", "generic"}))
+    # Self-typed members, Final and LiteralString annotations (all accepted by the serializers)
+    from typing_extensions import LiteralString, Self
+
+    SN = _dc(m, "SelfNode", {"v": int, "nxt": Optional[Self], "kids": List[Self]}, {"nxt": None, "kids": dataclasses.field(default_factory=list)})
+    out.append(("Self-typed members", SN, [SN(1, SN(2), [SN(3)])], {"self-reference", "Self"}))
+    FL = _dc(m, "FinalLit", {"n": typing.Final[int], "s": LiteralString}, {"n": 1, "s": "x"})
+    out.append(("Final[int] and LiteralString members", FL, [FL(2, "y")], {"special-forms"}))
+    # a callable `serialize` option on container members: its return annotation describes the output
+    def _keep(v: List[int]) -> List[int]:
+        return v
+
+    def _as_strs(v: List[datetime.date]) -> List[str]:
+        return [x.isoformat() for x in v]
+
+    OS = _dc(m, "OverSer", {"x": List[int], "d": List[datetime.date]},
+             {"x": dataclasses.field(default_factory=list, metadata=field_options(serialize=_keep)), "d": dataclasses.field(default_factory=list, metadata=field_options(serialize=_as_strs))})
+    out.append(("callable serialize option on container members", OS, [OS([1, 2], [datetime.date(2024, 2, 29)])], {"overridden-serialization"}))
     # mutual recursion
     MA = _dc(m, "MutA", {"b": Optional["MutB"]}, {"b": None})
     MB = _dc(m, "MutB", {"a": Optional[MA], "n": Optional[SR]}, {"a": None, "n": None})
